@@ -8,7 +8,7 @@ import vlib
 
 LEVEL = "model_checking"
 R1 = """SPECIFICATION Spec
-CONSTANTS Sources = {"x", "y"} MaxArrivals = %d CountPerQueue = %s
+CONSTANTS Sources = {"x", "y"} MaxArrivals = %d CountPerQueue = %s PeekAtRelease = %s
 INVARIANTS MonitorQuiet GaugesNonNegative StageEmpty
 CHECK_DEADLOCK FALSE
 """
@@ -20,10 +20,13 @@ CHECK_DEADLOCK FALSE
 
 
 def execute(ctx, props):
-    ctx.tlc_check("CloudHandler", ctx.write_cfg("CloudHandler.r1.cfg", R1 % (4 if ctx.tier == "quick" else 5, "TRUE")), label="per-queue host counting", timeout=3000)
-    bad = ctx.tlc_check("CloudHandler", ctx.write_cfg("CloudHandler.old.cfg", R1 % (3, "FALSE")), label="pre-fix host counting (must fail)", must_pass=False)
+    ctx.tlc_check("CloudHandler", ctx.write_cfg("CloudHandler.r1.cfg", R1 % (4 if ctx.tier == "quick" else 5, "TRUE", "FALSE")), label="per-queue host counting", timeout=3000)
+    bad = ctx.tlc_check("CloudHandler", ctx.write_cfg("CloudHandler.old.cfg", R1 % (3, "FALSE", "FALSE")), label="pre-fix host counting (must fail)", must_pass=False)
     if bad.violated not in ("MonitorQuiet", "GaugesNonNegative"):
         raise vlib.MachineryError("vacuity: pre-fix gauge accounting not refuted")
+    bad = ctx.tlc_check("CloudHandler", ctx.write_cfg("CloudHandler.peek.cfg", R1 % (3, "TRUE", "TRUE")), label="failed lookup enriched from the cache at release (must fail)", must_pass=False)
+    if bad.violated != "MonitorQuiet":
+        raise vlib.MachineryError("vacuity: enrichment from the cache at release not refuted")
     plans = [("bfs4", 4, None, None)] + ([("sim9", 9, "num=%d" % 300, 10)] if ctx.tier == "quick" else [("bfs5", 5, None, None), ("sim12", 12, "num=3000", 13)])
     named, fails = {}, []
     for label, ml, sim, depth in plans:
